@@ -46,6 +46,11 @@ def firstOk : Res → Bool
   | .error (.incompleteAVP t) => t == 0
   | _ => false
 
+/-- the body has a first AVP and it does not pass the first-AVP rule -/
+def firstBad : List Res → Bool
+  | [] => false
+  | first :: _ => !firstOk first
+
 def resErrors (rs : List Res) : List DErr := rs.filterMap fun | .error e => some e | .ok _ => none
 def resValues (rs : List Res) : List AVP := rs.filterMap fun | .ok a => some a | .error _ => none
 
@@ -67,39 +72,62 @@ def decodeControl (w : UInt16) (o : Opts) : M ρ (List DErr) Msg := do
   match body with
   | .error e => fail [e]   -- unreachable: the greedy reader never returns an error itself
   | .ok rs =>
-    if (match rs with | [] => false | first :: _ => !firstOk first) then fail [.controlMessageTypeNotFirst] else
+    if firstBad rs then fail [.controlMessageTypeNotFirst] else
     if (resErrors rs) ≠ [] then fail (resErrors rs) else
     pure (.control { length := length, tunnelId := tid, sessionId := sid, ns := ns, nr := nr, avps := resValues rs })
 
-/-- `DataMessage::try_read` -/
-def decodeData (w : UInt16) : M ρ DErr Msg := do
-  let initial ← len
+/-- the fixed fields of a data message, as far as the flag word announces them -/
+structure DataHdr where
+  mlen : Option UInt16
+  tid : UInt16
+  sid : UInt16
+  nsnr : Option (UInt16 × UInt16)
+  off : Option UInt16
+  deriving Repr, DecidableEq
+
+/-- `DataMessage::try_read`, first block: the minimum-length guard and the unchecked reads it covers
+    (Length, Tunnel ID, Session ID, Ns/Nr, Offset Size — each only if its flag bit is set) -/
+def readDataHeader (w : UInt16) : M ρ DErr DataHdr := do
   let minimal := 4 + (if hasLength w then 2 else 0) + (if hasNsNr w then 4 else 0) + (if hasOffset w then 2 else 0)
-  if initial < minimal then fail .incompleteDataMessageHeader else
+  if (← len) < minimal then fail .incompleteDataMessageHeader else
   let mlen ← (if hasLength w then do let l ← readU16; pure (some l) else pure none : M ρ DErr (Option UInt16))
   let tid ← readU16
   let sid ← readU16
   let nsnr ← (if hasNsNr w then do let a ← readU16; let b ← readU16; pure (some (a, b)) else pure none
                 : M ρ DErr (Option (UInt16 × UInt16)))
-  (if hasOffset w then do
-      let off ← readU16
-      if (← len) < off.toNat then fail (.invalidOffset off) else skip off.toNat
-    else pure () : M ρ DErr Unit)
+  let off ← (if hasOffset w then do let o ← readU16; pure (some o) else pure none : M ρ DErr (Option UInt16))
+  pure { mlen := mlen, tid := tid, sid := sid, nsnr := nsnr, off := off }
+
+/-- second block: the offset pad is skipped if it fits -/
+def skipOffset : Option UInt16 → M ρ DErr Unit
+  | some off => do if (← len) < off.toNat then fail (.invalidOffset off) else skip off.toNat
+  | none => pure ()
+
+/-- third block: the payload extent, from the Length field (which counts from the first flag octet)
+    or from what remains -/
+def readDataPayload (initial : Nat) (w : UInt16) (h : DataHdr) : M ρ DErr Msg := do
   let remaining ← len
   let headerLength := 2 + (initial - remaining)
-  match mlen with
+  match h.mlen with
   | some l =>
     if l.toNat < headerLength || l.toNat - headerLength > remaining then fail .incompleteDataMessagePayload else
     let plen := l.toNat - headerLength
     if plen = 0 then fail .emptyDataMessagePayload else
     let d ← readBytes plen .messageReadError
-    pure (.data { prio := isPrioritized w, length := mlen, tunnelId := tid, sessionId := sid, nsnr := nsnr,
+    pure (.data { prio := isPrioritized w, length := h.mlen, tunnelId := h.tid, sessionId := h.sid, nsnr := h.nsnr,
                   offset := none, data := d })
   | none =>
     if remaining = 0 then fail .emptyDataMessagePayload else
     let d ← readBytes remaining .messageReadError
-    pure (.data { prio := isPrioritized w, length := mlen, tunnelId := tid, sessionId := sid, nsnr := nsnr,
+    pure (.data { prio := isPrioritized w, length := h.mlen, tunnelId := h.tid, sessionId := h.sid, nsnr := h.nsnr,
                   offset := none, data := d })
+
+/-- `DataMessage::try_read` -/
+def decodeData (w : UInt16) : M ρ DErr Msg := do
+  let initial ← len
+  let h ← readDataHeader w
+  skipOffset h.off
+  readDataPayload initial w h
 
 /-- `Message::try_read_validate` -/
 def decode (o : Opts) : M ρ (List DErr) Msg := do
